@@ -14,10 +14,12 @@
   here is `iter_eq_spec_daily_partial`: FREQ=DAILY with any INTERVAL ≥ 1, BYMONTH, BYMONTHDAY,
   BYYEARDAY, BYDAY, COUNT, UNTIL.  Missing: the other six frequencies' period/cursor invariants on
   top of the proved `advance_*` / `dayset_*` lemmas, the three computed masks (BYWEEKNO, nth BYDAY,
-  BYEASTER), BYSETPOS, and non-default BYHOUR/BYMINUTE/BYSECOND.  Everything else below is proved for
-  ALL rules / all argument sets, with no `Supported` hypothesis.
+  BYEASTER), BYSETPOS, and non-default BYHOUR/BYMINUTE/BYSECOND.  Everything else below — including
+  `iter_strictMono` for all seven frequencies — is proved for ALL rules / all argument sets, with no
+  `Supported` hypothesis (so also inside the known-defect classes).
 -/
 import DateutilVerif.Proofs.RRuleDaily
+import DateutilVerif.Proofs.RRuleMonoAll
 
 namespace C01
 open RRule Cal RRule.Tables
@@ -136,6 +138,19 @@ theorem iter_count (r : Rule) (n : Nat) (c : Int) (hc : r.count = some c) :
   · simp; omega
   · rename_i st hinit
     exact run_count r n st c ((init_count r st hinit).trans hc)
+
+/-- **strictly increasing, no duplicates** — every rule the constructor accepts (valid start,
+    INTERVAL ≥ 1, week start 0..6), all seven frequencies, every combination of BY parts including
+    BYSETPOS and the known-defect classes, any COUNT / UNTIL, every number of periods: the yielded
+    instants are strictly increasing.  (Invariants: the cursor is a valid date with rebuilt year
+    facts; `__mod_distance` and the MINUTELY / SECONDLY reachability loops advance by a positive
+    multiple of INTERVAL; consecutive periods occupy disjoint increasing windows; inside a period the
+    candidates are `sorted days × strictly sorted time set`, or the sorted duplicate-free BYSETPOS list.) -/
+theorem iter_strictMono (a : Args) (r : Rule) (h : construct a = .ok r) (hi : 1 ≤ a.interval)
+    (hw : 0 ≤ a.wkst.getD 0 ∧ a.wkst.getD 0 ≤ 6) (hv : a.dtstart.Valid)
+    (hf : 0 ≤ a.freq ∧ a.freq ≤ 6) (n : Nat) :
+    (iter r n).1.Pairwise (fun x y => x.secs < y.secs) :=
+  iter_strictMono_all a r h hi hw hv hf n
 
 /-- **whole seconds**: every yielded datetime has `microsecond = 0` (the tzinfo is the rule's
     opaque tag `r.tz`, attached to every value by construction) -/
